@@ -116,7 +116,7 @@ def present(n, rows, rng):
 def shard(arg):
     kind = arg[0]
     rep = fw.Report()
-    fmts = ["strings+sign", "matrices+phases", "strings-minimal", "matrices+phases-int64"]
+    fmts = ["strings+sign", "matrices+phases", "strings-minimal", "matrices+phases-int64", "matrices+phases-bool"]
     if kind == "pairs":
         _, n, lo, hi, seed = arg
         allg = list(groups.enum_groups(n))
